@@ -218,10 +218,9 @@ def _unmut(e):
     return w(e)
 
 
-def c04_3(ctx):
+def c04_3(ctx, R="C04.3"):
     """every decrement of a cost budget in chia_consensus: guarded by strict < on the same term, mirrored in both
     condition_cost accumulators; no other writers of condition_cost"""
-    R = "C04.3"
     fb = ctx.fb
     n_dec = 0
     writers = set()
@@ -272,6 +271,38 @@ def c04_3(ctx):
                             ok = True
                     if not ok:
                         bad.append((b.where(bi), show(x) if x else "?"))
+        # converse: the budget is *read* in a branch condition only by such a guard -- `*max_cost < X` whose false side
+        # subtracts the same X.  Any other test of the budget (== 0, <= X, a threshold without a charge) rejects or accepts
+        # depending on how much earlier spends/conditions happened to leave, i.e. on order, and breaks "limit == total passes".
+        mc = ("arg", f.e["arg_names"].index("max_cost"), "max_cost")
+        unpaired = []
+        for node in b.edge_info:
+            sb = b.edge_info[node][0]
+            if sb not in b.reach:
+                continue
+            ct, lab = b.edge_condition(node)
+            d = strip_all(ct)
+            if not any(y == mc for y in subterms(d)):
+                continue
+            if lab != ("bool", False):
+                continue
+            okg = False
+            if d[0] == "bin" and d[1] == "Lt" and strip_all(d[2]) == mc:
+                x = strip_all(d[3])
+                # a decrement by the same X dominated by this false edge
+                for bj, blk in enumerate(b.blocks):
+                    if bj not in b.reach or not b.dominates(node, bj):
+                        continue
+                    for st in blk["s"]:
+                        if st["k"] == "assign" and st["pl"].get("p") and strip_all(b.place_term(st["pl"])) == mc:
+                            rv = strip_all(b.rvalue_term(st["rv"]))
+                            if any(isinstance(y, tuple) and y and y[0] == "bin" and y[1] in ("SubWithOverflow", "Sub") and strip_all(y[3]) == x
+                                   for y in subterms(rv)):
+                                okg = True
+            if not okg:
+                unpaired.append((b.where(sb), show(d)[:100]))
+        ctx.ob(R, "budget-tests:" + p.split("::")[-1][:40], not unpaired,
+               "the cost budget is tested only by `*max_cost < X` guards whose passing side subtracts the same X", found=unpaired[:3] or None)
         ctx.ob(R, "guarded-decrement:" + p.split("::")[-1][:40], not bad,
                "every `*max_cost -= X` is dominated by `*max_cost < X` being false for the same X (strict: a limit equal to the total passes)",
                found=bad)
